@@ -52,6 +52,9 @@ class Executor(Ops2):
         self.explore(st)
 
     def explore(self, st):
+        if self.deadline and time.time() > self.deadline:
+            self.end_path(st, 'budget', 'time')
+            return
         try:
             self.run_path(st)
             self.end_path(st, 'done', '')
